@@ -163,6 +163,7 @@ pub fn judge(scn: &Scenario, rr: &RunResult, out: &mut Vec<Viol>) {
     let all_push_calls: Vec<u64> = obs.iter().filter_map(|o| if let Obs::PushCall { t, .. } = o { Some(*t) } else { None }).collect();
     let mut last_tick_begin: Option<(u64, u32)> = None;
     let mut first_restart_mark: Option<usize> = None;
+    let mut cleared_to: Option<u32> = None;
     for (oi, o) in obs.iter().enumerate() {
         if matches!(o, Obs::Restart { .. }) && first_restart_mark.is_none() {
             first_restart_mark = Some(out.len());
@@ -215,6 +216,11 @@ pub fn judge(scn: &Scenario, rr: &RunResult, out: &mut Vec<Viol>) {
                         }
                     }
                 }
+                if let Some(g) = cleared_to {
+                    if after.universe.iter().any(|u| u.data.gen < g) {
+                        v(out, "C12", "old_stream_reachable_after_clear", format!("{when}: get_item returns items of a stream that was cleared away by restart(true)"));
+                    }
+                }
                 // C12: one stream per snapshot, never back to an older stream, restart(false) keeps the view
                 let gens: BTreeSet<u32> = after.items.iter().flatten().map(|d| d.gen).collect();
                 if gens.len() > 1 {
@@ -249,6 +255,12 @@ pub fn judge(scn: &Scenario, rr: &RunResult, out: &mut Vec<Viol>) {
                     if !after.matches.is_empty() || after.item_count != 0 {
                         v(out, "C12", "clear_not_immediate", format!("{when}: snapshot not empty immediately ({} matches, item_count {})", after.matches.len(), after.item_count));
                     }
+                    // "empty immediately" also for access by index: nothing of an older stream may
+                    // be reachable through the cleared snapshot, now or at any later tick
+                    if after.universe.iter().any(|u| u.data.gen < *new_gen) {
+                        v(out, "C12", "old_stream_reachable_after_clear", format!("{when}: get_item still returns items of the old stream"));
+                    }
+                    cleared_to = Some(*new_gen);
                     last_restart_false = None;
                 } else {
                     if !(before.matches == after.matches && before.item_count == after.item_count && before.items == after.items) {
@@ -264,7 +276,9 @@ pub fn judge(scn: &Scenario, rr: &RunResult, out: &mut Vec<Viol>) {
             Obs::Active { reported, expected, op, t } => {
                 // the handle model only knows U's own handles
                 let modelled = scn.injectors.is_empty() && !scn.u.iter().any(|o| matches!(o, crate::e2::UOp::GiveInjector(_)));
-                if modelled && reported != expected {
+                if *reported == usize::MAX {
+                    v(out, "C20", "active_injectors_panicked", format!("after {op} (t={t}): active_injectors() panicked (the subtraction underflowed); live handles of the current stream = {expected}"));
+                } else if modelled && reported != expected {
                     v(out, "C20", "active_injectors", format!("after {op} (t={t}): active_injectors() = {reported}, live handles of the current stream = {expected}"));
                 }
             }
